@@ -117,6 +117,17 @@ class Pipeline:
         self.test = None
         self.nwire = 0  # status events already compared
         self.wire_clock = None  # last unsupplied timestamp seen on the wire
+        self.t_created = self.t_before = self.t_after = datetime.datetime.now(UTC)  # the driver's clock reads
+
+    @staticmethod
+    def _details(ds):
+        L = _lib()
+        details = {}
+        for d in ds:
+            chunks = [chunk_bytes(d["ct"], d["name"], c) for c in d["chunks"]]
+            # a fresh one-shot iterator per iter_bytes() call: the converter may not rely on len() or indexing
+            details[NAMES[d["name"]]] = L["Content"](L["cts"][d["ct"]], lambda chunks=chunks: iter(chunks))
+        return details
 
     def wire_events(self):
         return [e for e in self.wire._events if e[0] == "status"]
@@ -147,13 +158,10 @@ class Pipeline:
                 meth(self.test, L["exc"])
             elif form == "reason":
                 meth(self.test, REASONS[arg["reason"]])
+            elif form == "both":  # a reason AND a details dict without a 'reason' entry (possibly {})
+                meth(self.test, REASONS[arg["reason"]], details=self._details(arg["details"]))
             else:
-                details = {}
-                for d in arg["details"]:
-                    chunks = [chunk_bytes(d["ct"], d["name"], c) for c in d["chunks"]]
-                    # a fresh one-shot iterator per iter_bytes() call: the converter may not rely on len() or indexing
-                    details[NAMES[d["name"]]] = L["Content"](L["cts"][d["ct"]], lambda chunks=chunks: iter(chunks))
-                meth(self.test, details=details)
+                meth(self.test, details=self._details(arg["details"]))
         else:
             raise tlc.MachineryError("unknown action %r" % (a,))
 
@@ -239,8 +247,13 @@ def chunk_class(chunks):
 
 
 # ---- the comparisons --------------------------------------------------------------------------------------------
-def check_time(clause, extra, exp, got, floor):
-    """Supplied time: equal.  Unsupplied: tz-aware and not earlier than `floor` (the previous unsupplied reading)."""
+SLACK = datetime.timedelta(seconds=5)
+
+
+def check_time(clause, extra, exp, got, floor, window):
+    """Supplied time: equal.  Unsupplied: tz-aware, not earlier than `floor` (the previous unsupplied reading) and a
+    reading of the clock: inside `window`, the driver's own clock reads around the call(s) that took it (+-5 s), so a
+    stale value left over from an earlier time() - e.g. one of a previous run on the same chain - is not accepted."""
     if exp is not None:
         if got != exp:
             raise Bad(clause, extra + ":supplied", exp, got)
@@ -249,6 +262,9 @@ def check_time(clause, extra, exp, got, floor):
         raise Bad(clause, extra + ":unsupplied-naive", "tz-aware datetime", got)
     if floor is not None and got < floor:
         raise Bad(clause, extra + ":unsupplied-decreasing", ">= %r" % (floor,), got)
+    lo, hi = window
+    if not (lo - SLACK <= got <= hi + SLACK):
+        raise Bad(clause, extra + ":unsupplied-not-the-clock", "between %r and %r" % (lo, hi), got)
     return got
 
 
@@ -272,7 +288,7 @@ def check_wire(p, h, exp_wire):
         if (e.test_id, e.test_status, e.file_name) != (IDS[x["id"]], "inprogress", None):
             raise Bad("wire-inprogress", "event", (IDS[x["id"]], "inprogress", None), tuple(e))
         # unsupplied readings are only required to be non-decreasing within a test
-        p.wire_clock = check_time("wire-time", "inprogress", ts_of(x["ts"]), e.timestamp, None)
+        p.wire_clock = check_time("wire-time", "inprogress", ts_of(x["ts"]), e.timestamp, None, (p.t_before, p.t_after))
         return
     # outcome: file runs, then exactly one final status
     call = h["arg"]
@@ -288,7 +304,7 @@ def check_wire(p, h, exp_wire):
     want_tags = {TAGS[t] for t in xf["tags"]}
     if f.test_tags is None or set(f.test_tags) != want_tags:
         raise Bad("wire-tags", "final", sorted(want_tags), f.test_tags)
-    p.wire_clock = check_time("wire-time", "final", ts_of(xf["ts"]), f.timestamp, p.wire_clock)
+    p.wire_clock = check_time("wire-time", "final", ts_of(xf["ts"]), f.timestamp, p.wire_clock, (p.t_before, p.t_after))
     # group both sides into runs of one file name
     def runs(seq, name, data, eof):
         out = []
@@ -313,7 +329,7 @@ def check_wire(p, h, exp_wire):
     # class of each detail for the signature: number of chunks its iterator yields
     cls_of = {NAMES[d["name"]]: chunk_class(d["chunks"]) for d in call["details"]}
     cls_of.setdefault("traceback", "traceback")
-    if form == "reason":
+    if form in ("reason", "both"):
         cls_of["reason"] = "reason"
     gd, wd = dict(got), dict(want)
     if len(gd) != len(got):
@@ -354,8 +370,8 @@ def check_out(p, h, tests):
     want_tags = sorted(TAGS[x] for x in t["tags"])
     if o["tags"] != want_tags:
         raise Bad("rt-tags", "", want_tags, o["tags"])
-    floor = check_time("rt-time", "start", ts_of(t["t0"]), b["t0"], None)
-    check_time("rt-time", "outcome", ts_of(t["t1"]), o["t1"], floor)
+    floor = check_time("rt-time", "start", ts_of(t["t0"]), b["t0"], None, (p.t_created, p.t_after))
+    check_time("rt-time", "outcome", ts_of(t["t1"]), o["t1"], floor, (p.t_created, p.t_after))
     want = expected_files(t)
     got = o["files"]
     if got is None:
@@ -380,12 +396,14 @@ def replay(beh, upto=None):
     hist = beh["hist"] if upto is None else beh["hist"][:upto]
     for i, h in enumerate(hist):
         raised = None
+        p.t_before = datetime.datetime.now(UTC)
         try:
             p.apply(h)
         except tlc.MachineryError:
             raise
         except Exception as ex:  # the converters never raise on well-formed histories ...
             raised = ex
+        p.t_after = datetime.datetime.now(UTC)
         try:
             check_wire(p, h, beh["wire"])
             check_out(p, h, beh["tests"])
@@ -405,7 +423,7 @@ def abstract(hist):
         a, arg = h["a"], h["arg"]
         if a == "outcome":
             ds = ",".join("%s[%s:%s]" % (d["name"], d["ct"], "|".join(d["chunks"])) for d in arg["details"])
-            out.append("%s/%s%s%s" % (arg["kind"], arg["form"], "(" + ds + ")" if ds else "", "=" + arg["reason"] if arg["form"] == "reason" else ""))
+            out.append("%s/%s%s%s" % (arg["kind"], arg["form"], "(" + ds + ")" if ds else "", "=" + arg["reason"] if arg["form"] in ("reason", "both") else ""))
         elif a == "tags":
             out.append("tags(+%s,-%s)" % ("".join(arg["new"]), "".join(arg["gone"])))
         elif a in ("time", "startTest"):
@@ -458,7 +476,9 @@ def run(tier, pid="C09"):
     rep.assume("histories start with an explicit startTestRun; time() before the implicit startTestRun is outside the domain (DESIGN 5.2, suspect in 7)")
     rep.assume("tags() and time() are issued outside tests or between startTest and the outcome, never between the outcome and stopTest")
     rep.assume("a skip reason given as reason= is the text/plain;charset=utf8 detail 'reason'; an empty reason counts as an empty detail (not required to survive)")
-    rep.assume("timestamps when no time() was supplied: only tz-aware and non-decreasing is required")
+    rep.assume("timestamps when no time() was supplied in the run: tz-aware, non-decreasing within a test, and a reading of the clock (inside the driver's own clock reads around the call, +-5 s) - not a value left over from a time() of an earlier run")
+    rep.assume("addSkip given both reason= and details= (no 'reason' entry, {} included) carries the details plus the reason as the 'reason' detail; the sender accepts this form")
+    rep.assume("sc_exp2r: the same decorator chain is used for two consecutive startTestRun..stopTestRun runs; time() and tags() of one run do not apply to the next")
     rep.assume("file-event timestamps and the wire's mime_type spelling are not compared (content types are compared on the reproduced details with ContentType.__eq__)")
     rep.assume("order of different details' runs on the wire is not compared (each run must be contiguous and in chunk order)")
     rep.assume("ContentType repr/parse is identity on the eight explored (lower-case type/subtype/parameter-name) content types in the model; upper-case type or parameter names and pathological values are C16's excluded domain")
@@ -470,14 +490,16 @@ def run(tier, pid="C09"):
             ("MCStreamConv", "sc_exp1.cfg", {}, True),
             ("MCStreamConv", "sc_exp2.cfg", {}, True),
             ("MCStreamConv", "sc_exp2c.cfg", {}, True),
+            ("MCStreamConv", "sc_exp2r.cfg", {}, True),
             ("MCStreamConv", "sc_exp3.cfg", {}, True),
-            (sim_mod, "sc_simR.cfg", dict(simulate=dict(num=200, depth=80), seed=rep.seed + 1), True),
+            (sim_mod, "sc_simR.cfg", dict(simulate=dict(num=150, depth=80), seed=rep.seed + 1), True),
         ]
     else:
         jobs = [
             ("MCStreamConv", "sc_exp1.cfg", {}, True),
             ("MCStreamConv", "sc_exp2T.cfg", {}, True),
             ("MCStreamConv", "sc_exp2c.cfg", {}, True),
+            ("MCStreamConv", "sc_exp2r.cfg", {}, True),
             ("MCStreamConv", "sc_exp3T.cfg", {}, True),
             ("MCStreamConv", "sc_expT1.cfg", {}, True),
             ("MCStreamConv", "sc_mcT1.cfg", {}, False),
